@@ -300,7 +300,12 @@ impl BitVector for Bvd {
         length: usize,
         endianness: Endianness,
     ) -> std::io::Result<Self> {
-        let num_bytes = (length + 7) / 8;
+        let num_bytes = length.checked_add(7).ok_or_else(|| {
+            std::io::Error::new(
+                std::io::ErrorKind::InvalidInput,
+                ConvertionError::NotEnoughCapacity,
+            )
+        })? / 8;
         let mut buf: Vec<u8> = repeat(0u8).take(num_bytes).collect();
         reader.read_exact(&mut buf[..])?;
         let mut bv = Self::from_bytes(&buf[..], endianness)
